@@ -4,6 +4,7 @@
 name=$1; shift
 cd /verif
 if [ -n "$(git -C /repo status --porcelain)" ]; then echo "REFUSED: /repo has uncommitted changes"; exit 2; fi
+cp -r evidence /tmp/evidence.save.$$
 git -C /repo apply /verif/seeded/$name/patch.diff || { echo "patch does not apply"; exit 2; }
 for p in "$@"; do
   echo "=== $p with seeded/$name"
@@ -11,4 +12,5 @@ for p in "$@"; do
   echo "exit=${PIPESTATUS[0]}"
 done
 git -C /repo checkout -- .
+rm -rf evidence && mv /tmp/evidence.save.$$ evidence
 git -C /repo status --porcelain
